@@ -39,7 +39,7 @@ pub const ACTIONS: [&str; 10] = [
     "execute_on_shared_handle",
     "dump_own_context",
 ];
-pub const POSITIONS: [&str; 6] = [
+pub const POSITIONS: [&str; 7] = [
     "root",
     "nested_operand",
     "conditional_then",
@@ -47,11 +47,15 @@ pub const POSITIONS: [&str; 6] = [
     // only with register_function: the handler is an ARGUMENT of the very function it registers / replaces
     "argument_of_function_it_registers",
     "argument_of_function_it_replaces",
+    // `t = 10 ; t += <handler> ; t` where the handler rewrites t through the handle / a nested
+    // evaluation: the compound form reads its target BEFORE the right-hand side runs
+    "rhs_of_compound_assignment_whose_target_it_rewrites",
 ];
 
-/// kinds whose handler may lock / evaluate on the evaluating context's handle
+/// kinds that are context functions (any handler kind may lock / evaluate on the evaluating
+/// context's handle: a global handler can have captured it)
 fn is_ctx_kind(k: usize) -> bool {
-    k >= 4
+    k == 4 || k == 5 || k == 7
 }
 
 /// the matrix cells that exist (context-locking actions only for context functions)
@@ -59,11 +63,13 @@ pub fn matrix() -> Vec<(usize, usize, usize)> {
     let mut v = vec![];
     for k in 0..KINDS.len() {
         for a in 0..ACTIONS.len() {
-            if a >= 6 && !is_ctx_kind(k) {
-                continue;
-            }
             for p in 0..POSITIONS.len() {
-                if p >= 4 && (a != 2 || k >= 6) {
+                if (p == 4 || p == 5) && (a != 2 || k >= 6) {
+                    continue;
+                }
+                // position 6: only for the two actions that write the evaluating context, and for
+                // handler kinds that yield a value
+                if p == 6 && (!(a == 7 || a == 8) || k >= 6) {
                     continue;
                 }
                 v.push((k, a, p));
@@ -78,7 +84,18 @@ fn marker(case: &mut Case, kind: HKind) -> usize {
 }
 
 /// the re-entrant action performed by the handler, and a statement that later observes its effect
-fn action(case: &mut Case, a: usize) -> (Vec<Op>, Option<Expr>, Ret) {
+fn action(case: &mut Case, a: usize, target: Option<&str>) -> (Vec<Op>, Option<Expr>, Ret) {
+    if let Some(t) = target {
+        // position 6: the write goes to the compound assignment's own target
+        return match a {
+            7 => (vec![Op::HandleWrite { slot: 0, name: t.into(), val: Val::int(100) }], None, Ret::Const(Val::int(7))),
+            _ => (
+                vec![Op::Exec { prog: Prog::Stmts(vec![bin("=", rf(t), lit_i(100)), rf(t)]), ctx: CtxRef::Slot(0) }],
+                None,
+                Ret::Const(Val::int(7)),
+            ),
+        };
+    }
     let fresh = || CtxRef::Fresh(CtxSpec { vars: vec![("v".into(), Val::int(4))], funcs: vec![] });
     match a {
         0 => (vec![Op::Parse { prog: Prog::one(bin("+", lit_i(1), bin("*", lit_i(2), lit_i(3)))) }], None, Ret::Const(Val::int(7))),
@@ -179,7 +196,7 @@ fn at_position(p: usize, node: Expr) -> Expr {
 pub fn matrix_case(k: usize, a: usize, p: usize) -> Case {
     let mut case = Case::new(&format!("matrix:{}:{}:{}", KINDS[k], ACTIONS[a], POSITIONS[p]));
     case.slots.push(CtxSpec { vars: vec![("x".into(), Val::int(1))], funcs: vec![] });
-    let (ops, later, ret) = action(&mut case, a);
+    let (ops, later, ret) = action(&mut case, a, if p == 6 { Some("t") } else { None });
     // a DumpSlot / constant return for the kinds whose value is used arithmetically
     let ret = if k == 7 && matches!(ret, Ret::DumpSlot(_)) { Ret::Const(Val::int(7)) } else { ret };
     let h = case.add_handler(HandlerSpec { kind: hkind(k), ret, actions: ops });
@@ -189,7 +206,11 @@ pub fn matrix_case(k: usize, a: usize, p: usize) -> Case {
         case.pre.push(Op::RegFn { name: "nf".into(), h: old });
     }
     let node = invoking_node(&mut case, k, h, "hh");
-    let mut stmts = vec![bin("=", rf("y"), lit_i(5)), bin("=", rf("r"), at_position(p, node))];
+    let mut stmts = if p == 6 {
+        vec![bin("=", rf("y"), lit_i(5)), bin("=", rf("t"), lit_i(10)), bin("+=", rf("t"), node), bin("=", rf("r"), rf("t"))]
+    } else {
+        vec![bin("=", rf("y"), lit_i(5)), bin("=", rf("r"), at_position(p, node))]
+    };
     if let Some(l) = later.clone() {
         stmts.push(l);
     }
@@ -207,6 +228,50 @@ pub fn matrix_case(k: usize, a: usize, p: usize) -> Case {
         case.post.push(Op::Exec { prog: Prog::one(e), ctx: CtxRef::Fresh(CtxSpec::empty()) });
     }
     case.post.push(Op::CtxDump { slot: 0 });
+    case.post.push(Op::Exec { prog: Prog::one(bin("+", rf("x"), lit_i(1))), ctx: CtxRef::Slot(0) });
+    case
+}
+
+/// a long chain of re-entrant evaluations (40..110 levels), each a tiny expression `1 + next(..)`:
+/// whatever a handler-started evaluation inherits from its caller must not add up
+fn deep_chain_case(r: &mut Prng) -> Case {
+    let mut case = Case::new("deep-chain");
+    case.slots.push(CtxSpec { vars: vec![("x".into(), Val::int(1))], funcs: vec![] });
+    let depth = 40 + r.usize(70);
+    let kind = r.usize(3); // global function / prefix operator / bare-name context function
+    let mut inner: Option<(Expr, Vec<(String, usize)>)> = None;
+    for level in (0..depth).rev() {
+        let name = format!("d{}", level);
+        let mut actions = vec![];
+        if let Some((prog, funcs)) = inner.take() {
+            actions.push(Op::Exec { prog: Prog::one(prog), ctx: CtxRef::Fresh(CtxSpec { vars: vec![], funcs }) });
+        }
+        let k = match kind {
+            0 => HKind::Func,
+            1 => HKind::Prefix,
+            _ => HKind::CtxFunc,
+        };
+        let h = case.add_handler(HandlerSpec { kind: k, ret: Ret::Const(Val::int(level as i64)), actions });
+        let mut funcs = vec![];
+        let node = match kind {
+            0 => {
+                case.pre.push(Op::RegFn { name: name.clone(), h });
+                call(&name, vec![lit_i(1)])
+            }
+            1 => {
+                case.pre.push(Op::RegPre { name: name.clone(), h });
+                un(&name, lit_i(1))
+            }
+            _ => {
+                funcs.push((name.clone(), h));
+                rf(&name)
+            }
+        };
+        inner = Some((bin("+", lit_i(1), node), funcs));
+    }
+    let (prog, funcs) = inner.unwrap();
+    case.slots[0].funcs.extend(funcs);
+    case.pre.push(Op::Exec { prog: Prog::one(prog), ctx: CtxRef::Slot(0) });
     case.post.push(Op::Exec { prog: Prog::one(bin("+", rf("x"), lit_i(1))), ctx: CtxRef::Slot(0) });
     case
 }
@@ -332,7 +397,7 @@ impl Prop for C14 {
             rule: "exhaustive part: every existing cell of handler kind {global function, prefix, infix, postfix, context function by call, context function by \
                    bare name, user-registered SETTER operator, context function as the target of a compound assignment} x re-entrant action {parse_expression, execute on a new context, register_function/prefix/infix/postfix, and for context \
                    functions: lock the evaluating context's handle and read / write it / evaluate on a Context sharing it / dump it} x program position {root, \
-                   nested operand, then-branch, else-branch, and for register_function: as an argument of the very function it registers / replaces} = 268 cases, all run on every invocation; sampled part: seeded chains of 2..4 re-entrant \
+                   nested operand, then-branch, else-branch, and for register_function: as an argument of the very function it registers / replaces} = 344 cases, all run on every invocation; sampled part: seeded chains of 2..4 re-entrant \
                    handlers each evaluating a program that invokes the next, in a third of them with a bystander thread that registers and evaluates concurrently \
                    (seeded schedules). Fresh simulated process per case. evaluations = simulated \
                    executions; distinct_nontrivial = distinct cases in which at least one re-entrant action was actually performed inside a handler",
@@ -341,7 +406,7 @@ impl Prop for C14 {
                 "the handler's return value is a constant, so the outer result must equal that of the same program with plain handlers; inner results come from the reference model",
             ],
             fault_kinds: &["reenter_parse", "reenter_execute", "reenter_register", "reenter_ctx_lock", "preempt_in_call", "fresh_process"],
-            probes: &["matrix_cells_run", "nesting_depth_3_or_more", "inner_registration_used_later", "bare_name_locks_own_context", "bystander_registers_during_reentrant_evaluation"],
+            probes: &["matrix_cells_run", "nesting_depth_3_or_more", "inner_registration_used_later", "bare_name_locks_own_context", "bystander_registers_during_reentrant_evaluation", "deep_reentrant_chain"],
         }
     }
 
@@ -363,7 +428,12 @@ impl Prop for C14 {
             matrix_case(k, a, p)
         } else {
             let mut r = Prng::derive(seed, "C14.nested", idx);
-            nested_case(&mut r)
+            if idx % 64 == 63 {
+                rt.probe("deep_reentrant_chain");
+                deep_chain_case(&mut r)
+            } else {
+                nested_case(&mut r)
+            }
         };
         let case = Arc::new(case);
         rt.case_seen(case.fingerprint());
